@@ -68,13 +68,21 @@ def run(c):
     ds = guarded(lambda: list(qa.find_duplicate_rows(x, as_string=True)))
     css = guarded(lambda: list(qa.find_consecutive_duplicate_rows(x, as_string=True)))
     m3 = bool((x == x0).all())
-    return {"dups": d, "consec": cs, "dups_s": ds, "consec_s": css, "unmodified": m1 and m2 and m3}
+    # the returned rows are copies: they share no memory with the caller's array (editing a result must not edit the data)
+    alias = []
+    for nm, fn in (("find_duplicate_rows", qa.find_duplicate_rows), ("find_consecutive_duplicate_rows", qa.find_consecutive_duplicate_rows)):
+        res = guarded(lambda: fn(x))
+        if res[0] == "ok" and isinstance(res[1], np.ndarray) and res[1].size and np.shares_memory(res[1], x):
+            alias.append(nm)
+    return {"dups": d, "consec": cs, "dups_s": ds, "consec_s": css, "unmodified": m1 and m2 and m3, "aliased": alias}
 
 
 def oracle(c, o):
     x = [tuple(r) for r in c["x"]]
     if not o["unmodified"]:
         return {"why": "input array modified", "cls": "qa:input-modified"}
+    if o.get("aliased"):
+        return {"why": f"{o['aliased'][0]} returned rows that share memory with the input {c['x']}: editing the result edits the caller's data (and vice versa), so the input is not safe from modification and the result is not 'a copy of row i+1'", "cls": "qa:result-aliases-input"}
     if o["dups"][0] != "ok":
         return {"why": f"find_duplicate_rows raised {o['dups'][1]}", "cls": "qa:dups-raises"}
     cnt = Counter(x)
